@@ -298,6 +298,36 @@ def dissolve (d : Dict) (n : Name) : Dict :=
   | some (.lazy g) => d.map (fun p => if p.1 == n then (n, Val.built g) else p)
   | _ => d
 
+/-! ## lazy bootstrap
+
+`spec_class.__call__` without `bootstrap=True` installs placeholders; every
+"use" of the class (instantiation through the `__new__` wrapper, reading
+`__spec_class__`, reading `__dataclass_fields__`) runs `bootstrap_once`, which
+bootstraps iff the placeholder is still there. `bootstrap` publishes the
+metadata only after the collision loop, so a bootstrap that raises leaves the
+placeholder in place and the next use runs it again. -/
+
+inductive LazyState
+  | pending                     -- `__spec_class__` is still the placeholder
+  | done (d : Decorated)
+  deriving Repr
+
+/-- one use of a lazily decorated class -/
+def lazyUse (singular : Name → Option Name) (c : Cls) : LazyState → LazyState × Except Err Unit
+  | .pending =>
+    match decorate singular c with
+    | .ok d => (.done d, .ok ())
+    | .error e => (.pending, .error e)
+  | .done d => (.done d, .ok ())
+
+/-- `n` uses in a row, with their outcomes -/
+def lazyUses (singular : Name → Option Name) (c : Cls) : Nat → LazyState → LazyState × List (Except Err Unit)
+  | 0, st => (st, [])
+  | n + 1, st =>
+    let r := lazyUse singular c st
+    let rest := lazyUses singular c n r.1
+    (rest.1, r.2 :: rest.2)
+
 /-! ## the spec-class parent -/
 
 /-- helper names the parent registered for the attributes the child does not
